@@ -138,6 +138,7 @@ class Merger(object):
         spike_clusters_l = _load_multiple_files('spike_clusters.npy', self.subdirs)
         spike_templates_l = _load_multiple_files('spike_templates.npy', self.subdirs)
         self.cluster_offsets = []
+        self.cluster_counts = []
         self.template_offsets = []
         cluster_probes_l = []
         coffset = 0
@@ -150,6 +151,7 @@ class Merger(object):
             sc += coffset
             st += toffset
             self.cluster_offsets.append(coffset)
+            self.cluster_counts.append(n_clu)
             self.template_offsets.append(toffset)
             cluster_probes_l.append(i * np.ones(n_clu, dtype=np.int32))
             coffset += n_clu
@@ -176,13 +178,18 @@ class Merger(object):
 
         for fn in cluster_data:
             metadata = {}
-            for subdir, offset in zip(self.subdirs, self.cluster_offsets):
+            for subdir, offset, n_clu in zip(
+                    self.subdirs, self.cluster_offsets, self.cluster_counts):
                 try:
                     field_name, metadata_loc = _read_tsv_simple(subdir / fn)
                 except ValueError:
                     # Skipping non-existing file.
                     continue
                 for k, v in metadata_loc.items():
+                    if k >= n_clu:
+                        # This cluster has no spike and lies beyond the probe's range of merged
+                        # ids: its renumbered id would be the one of a cluster of the next probe.
+                        continue
                     metadata[k + offset] = v
             if metadata:
                 _write_tsv_simple(self.out_dir / fn, field_name, metadata)
